@@ -6,12 +6,74 @@ from . import c01, campaign, engine, fmt, gen, segs
 
 LEVEL = 'proof'
 PID = 'C15'
-WEIGHTS = {'rect': 0.25, 'oct': 0.3, 'share': 0.15, 'lat': 0.15, 'gp': 0.15}
+WEIGHTS = {'rect': 0.25, 'oct': 0.3, 'share': 0.15, 'lat': 0.15, 'gp': 0.15, 'fan': 0.05, 'boxes': 0.05}
 
 
-def pair_line(cid, s1, s2, subj1, subj2, c1=1, c2=2):
-    h = lambda p: '%s %s' % (fmt.hx(p[0]), fmt.hx(p[1]))  # noqa: E731
-    return 'pair %s 64 %s %s %d %d %s %s %d %d' % (cid, h(s1[0]), h(s1[1]), subj1, c1, h(s2[0]), h(s2[1]), subj2, c2)
+def pair_line(cid, s1, s2, subj1, subj2, c1=1, c2=2, prec=64):
+    h = lambda p: '%s %s' % (fmt.hx(p[0], prec), fmt.hx(p[1], prec))  # noqa: E731
+    return 'pair %s %d %s %s %d %d %s %s %d %d' % (cid, prec, h(s1[0]), h(s1[1]), subj1, c1, h(s2[0]), h(s2[1]), subj2, c2)
+
+
+def _nudge(x, k, prec):
+    """k units in the last place of the format"""
+    import math
+    import struct
+    if prec == 64:
+        for _ in range(abs(k)):
+            x = math.nextafter(x, math.inf if k > 0 else -math.inf)
+        return x
+    b = struct.unpack('>i', struct.pack('>f', x))[0]
+    if x == 0.0:
+        return x
+    b += k if b >= 0 else -k
+    return struct.unpack('>f', struct.pack('>i', b))[0]
+
+
+def float_pairs(rng, n, prec):
+    """segment pairs outside the small lattice: signed zeros, mixed magnitudes, nearly collinear points (a few units in
+    the last place off a slanted line), long thin slivers; every coordinate exactly representable in the format"""
+    R = fmt.to_f32 if prec == 32 else (lambda v: v)
+    big = [5e6, 3e4, 1024.0, 8388607.0] if prec == 32 else [5e6, 1e12, 4503599627370495.0, 3e4]
+    out = []
+    while len(out) < n:
+        kind = rng.choice(['zero', 'zero', 'near', 'near', 'adv', 'adv', 'adv', 'sliver', 'rand'])
+        if kind == 'adv':
+            # a point a few units in the last place off a slanted segment for which the plain determinant has the wrong sign
+            adv = gen.adversarial_corner(rng, prec, 300)
+            if not adv:
+                continue
+            a, b, c = adv
+            f = rng.choice(gen._SYM8)
+            a, b, c = f(*a), f(*b), f(*c)
+            q = (R(c[0] + rng.uniform(-60, 60)), R(c[1] + rng.uniform(-60, 60)))
+            pts = [a, b, c, q]
+        elif kind == 'zero':
+            vals = [-0.0, 0.0, 1.0, -1.0, 2.0, -2.0]
+            pts = [(rng.choice(vals), rng.choice(vals)) for _ in range(4)]
+        elif kind == 'near':
+            m = rng.choice(big)
+            a = (R(rng.uniform(-1, 1) * rng.choice([1.0, m])), R(rng.uniform(-1, 1) * rng.choice([1.0, m])))
+            b = (R(a[0] + rng.uniform(0.1, 1) * m), R(a[1] + rng.uniform(-1, 1) * rng.choice([1.0, m])))
+            t = rng.choice([0.0, 1.0, rng.random(), rng.random(), 0.75, 0.5])
+            px, py = R(a[0] + t * (b[0] - a[0])), R(a[1] + t * (b[1] - a[1]))
+            py = _nudge(py, rng.randrange(-3, 4), prec)
+            q = (R(px + rng.uniform(-1, 1) * rng.choice([1.0, m])), R(py + rng.uniform(-1, 1) * rng.choice([1.0, m])))
+            pts = [a, b, (px, py), q]
+        elif kind == 'sliver':
+            w = float(2 ** rng.randrange(8, 22 if prec == 32 else 40))
+            h = float(rng.choice([1, 2, 3, 4]))
+            x0, y0 = float(rng.randrange(-4, 5)), float(rng.randrange(-4, 5))
+            a, b = (x0, y0), (x0 + w, y0 + h)
+            c = (x0 + rng.choice([0.0, w / 2, -w / 2]), y0 + float(rng.randrange(-2, 5)))
+            d = (c[0] + w * rng.choice([1.0, 0.5, 1.5]), c[1] + float(rng.randrange(-3, 4)))
+            pts = [a, b, c, d]
+        else:
+            pts = [(R(rng.uniform(-10, 10)), R(rng.uniform(-10, 10))) for _ in range(4)]
+        pts = [(R(x), R(y)) for (x, y) in pts]
+        if pts[0] == pts[1] or pts[2] == pts[3] or lr((pts[0], pts[1])) == lr((pts[2], pts[3])):
+            continue
+        out.append(((pts[0], pts[1]), (pts[2], pts[3]), *rng.choice([(1, 0), (0, 1), (1, 1)])))
+    return out
 
 
 def lr(s):
@@ -168,6 +230,35 @@ def run(rep, tier, seed):
         elif bad:
             fails.append((lines[i], bad))
     rep.log('%d lattice pairs: %d failing, %d model mismatches' % (len(jobs), len(fails), len(mism)))
+    # ---- float pairs (f64 and f32): signed zeros, mixed magnitudes, nearly collinear points, slivers
+    nfl = 1500 if tier == 'quick' else 40000
+    fl_total = 0
+    fl_n1 = 0
+    for prec in (64, 32):
+        fj = float_pairs(rng, nfl, prec)
+        fl = [pair_line('f%d_%d' % (prec, i), j[0], j[1], j[2], j[3], prec=prec) for i, j in enumerate(fj)]
+        fi = engine.run_lines(engine.impl_bin('r'), fl, timeout=600)
+        fm = engine.run_lines(engine.MODEL, fl, timeout=1800)
+        fl_total += len(fl)
+        mism += [(fl[i], fi[i], fm[i]) for i in range(len(fl)) if fi[i] != fm[i]]
+        for i, j in enumerate(fj):
+            pl = engine.payload(fi[i])
+            if pl.startswith('panic') or len(pl.split()) != 2:
+                fails.append((fl[i], ['call did not return normally: ' + pl[:100]]))
+                continue
+            bad = judge_pair(j[0], j[1], j[2], j[3], pl)
+            if bad and all(b.startswith('N4 ') for b in bad):
+                n4[0] += 1
+            elif bad and fi[i] == fm[i] and all('vertical order' in b for b in bad):
+                # compare_segments consults the ROUNDED intersection point in its crossing branch: outside the exact class
+                # its agreement with the vertical order is finding N1 (the bit-exact model reproduces the answer)
+                fl_n1 += 1
+                rep.known_finding('N1', 'float pair %s: %s' % (fl[i][:120], bad[0][:80]))
+            elif bad:
+                fails.append((fl[i], ['f%d: %s' % (prec, bad[0])] + bad[1:]))
+    rep.log('%d float pairs: %d failing so far, %d model mismatches so far' % (fl_total, len(fails), len(mism)))
+    cov['float_pairs'] = fl_total
+    cov['float_pairs_vertical_order_off_reproduced_by_model_N1'] = fl_n1
     # ---- event sets of valid operands, before and after subdivision
     npairs = 100 if tier == 'quick' else 2500
     cases = [c for c in campaign.make_cases(rng, npairs, WEIGHTS, ops='UI') if c.n_edges() <= (40 if tier == 'quick' else 90)]
@@ -188,10 +279,10 @@ def run(rep, tier, seed):
             continue              # outcome failures are C03's business
         n, evs, m1, m, m2 = po
         sizes.append(n)
-        exact = c.family in ('rect', 'oct', 'share')
+        exact = c.family in ('rect', 'oct', 'share', 'boxes', 'fan')
         bad = judge_orders(evs, n, m1, m, m2, exact, n4=n4)
         if bad:
-            if c.family in ('lat', 'gp') and oimpl[i] == omodel[i] and gen.degenerate_arrangement(c.lhs, c.rhs):
+            if c.family in ('lat', 'gp', 'straddle') and oimpl[i] == omodel[i] and gen.degenerate_arrangement(c.lhs, c.rhs):
                 known += 1
                 rep.known_finding('N1', '%s %s: %s' % (c.cid, c.family, bad[0][:150]))
             else:
